@@ -96,14 +96,14 @@ def extract(path, tag):
 STAT_RE = re.compile(r"(\d+) states generated, (\d+) distinct states found")
 
 
-def run_tlc(model, cfg, wd, mode="bfs", workers=4, timeout=900, seed=None, xmx="6g"):
+def run_tlc(model, cfg, wd, mode="bfs", workers=4, timeout=900, seed=None, xmx="6g", allow_violation=False):
     """Run TLC on spec/<model>.tla with the given cfg text. mode: "bfs" or ("sim", num, depth).
     Returns (output path, distinct states, states generated)."""
-    cfgp = os.path.join(wd, model + ".cfg")
+    cfgp = os.path.join(wd, os.path.basename(model).replace(".tla", "") + ".cfg")
     with open(cfgp, "w") as f:
         f.write(cfg)
-    out = os.path.join(wd, model + ".out")
-    cmd = ["java", "-XX:+UseParallelGC", "-Xmx" + xmx, "-Xss512m", "-cp", JARS, "tlc2.TLC",
+    out = os.path.join(wd, os.path.basename(model).replace(".tla", "") + ".out")
+    cmd = ["java", "-XX:+UseParallelGC", "-Xmx" + xmx, "-Xss512m", "-DTLA-Library=" + SPEC, "-cp", JARS, "tlc2.TLC",
            "-metadir", os.path.join(wd, "meta"), "-noGenerateSpecTE", "-config", cfgp]
     if mode == "bfs":
         cmd += ["-workers", str(workers)]
@@ -111,7 +111,8 @@ def run_tlc(model, cfg, wd, mode="bfs", workers=4, timeout=900, seed=None, xmx="
         cmd += ["-workers", "1", "-simulate", "num=%d" % mode[1], "-depth", str(mode[2])]
         if seed is not None:
             cmd += ["-seed", str(seed)]
-    cmd.append(os.path.join(SPEC, model + ".tla"))
+    cmd.append(model if os.path.isabs(model) else os.path.join(SPEC, model + ".tla"))
+    model = os.path.basename(model).replace(".tla", "")
     t0 = time.time()
     with open(out, "w") as f:
         try:
@@ -121,7 +122,7 @@ def run_tlc(model, cfg, wd, mode="bfs", workers=4, timeout=900, seed=None, xmx="
     txt = open(out, errors="replace").read()
     shutil.rmtree(os.path.join(wd, "meta"), ignore_errors=True)
     if mode == "bfs":
-        if "Model checking completed. No error has been found." not in txt:
+        if "Model checking completed. No error has been found." not in txt and not (allow_violation and "is violated" in txt):
             raise ToolError("TLC reported an error on %s; see %s\n%s" % (model, out, tail_errors(txt)))
         m = STAT_RE.findall(txt)
         gen, dist = (int(m[-1][0]), int(m[-1][1])) if m else (0, 0)
